@@ -306,7 +306,8 @@ func (b *Builder) globalScaffold(g *am.Global) {
 	gl.TLSModel = tls(g.TLS)
 	gl.UnnamedAddr = unnamedAddr(g.UnnamedAddr)
 	gl.AddrSpace = types.AddrSpace(g.AddrSpace)
-	gl.Typ = nil // the address space is part of the type: let the library recompute it
+	gl.Typ = nil // the address space is part of the type: let the library recompute it (now, not lazily during printing)
+	gl.Type()
 	gl.ExternallyInitialized = g.ExternInit
 	gl.Section = g.Section
 	gl.Partition = g.Partition
@@ -375,6 +376,7 @@ func (b *Builder) funcScaffold(f *am.Fun) {
 	fn.UnnamedAddr = unnamedAddr(f.UnnamedAddr)
 	fn.AddrSpace = types.AddrSpace(f.AddrSpace)
 	fn.Typ = nil
+	fn.Type() // recompute the cached pointer type with the address space, before anything can print concurrently
 	for _, a := range f.FnAttrs {
 		fn.FuncAttrs = append(fn.FuncAttrs, b.funcAttr(a))
 	}
